@@ -12,6 +12,7 @@ import Ctrmml.Spec.SeqWf
 import Ctrmml.Proofs.CodecBreak
 import Ctrmml.Proofs.CodecWalkLoops
 import Ctrmml.Proofs.CodecTrack
+import Ctrmml.Proofs.SongFragment
 namespace Ctrmml.C03
 open Ctrmml Ctrmml.Mds Ctrmml.Seq Tables
 
@@ -103,7 +104,7 @@ theorem C03_finish_last (nS nM : Nat) (e e' : Enc) (h : encEv nS nM e ⟨mds_FIN
     have a : ¬ (mds_FINISH = mds_SEGNO) := by decide
     simp [a]
   rw [h3] at h
-  have h4 : mds_FINISH < mds_REST ∨ mds_FINISH ≥ mds_SLR ∨ (⟨mds_FINISH, 0⟩ : MEv).arg ≠ 0 := by decide
+  have h4 : (mds_FINISH < mds_REST ∧ mds_FINISH ≠ mds_CARRY) ∨ mds_FINISH ≥ mds_SLR ∨ (⟨mds_FINISH, 0⟩ : MEv).arg ≠ 0 := by decide
   simp only [h4, if_true, Except.ok.injEq] at h
   subst h
   rfl
@@ -147,37 +148,38 @@ restriction: tracks whose bracket structure has no loop break (`noBreakL`), leav
 fragment, terminated by `FINISH`.  For every fuel, tick limit, number of followed jumps and initial
 register contents the interpreter stops only with `finished`, `fuel` or `tooManyTicks`. -/
 theorem C03_codec_never_reads_outside_partial (nS nM : Nat) (ts : List Node) (hl : linL ts = true)
-    (hn : noBreakL ts = true) (farg : Nat) :
+    (hn : noBreakL ts = true) (hm : mokL Mode.plain false ts = true) (farg : Nat) :
     ∃ bytes, convertTrack nS nM (flatL ts ++ [⟨mds_FINISH, farg⟩]) = .ok bytes ∧
       ∀ (base mj maxTicks fuel : Nat) (ln lr : Option Nat),
         (run bytes base mj maxTicks fuel { pc := 0, lastNote := ln, lastRest := lr }).2 ∈
           [Stop.finished, Stop.fuel, Stop.tooManyTicks] := by
-  obtain ⟨bytes, h1, h2⟩ := codec_roundtrip_loops_nobreak nS nM ts hl hn farg
+  obtain ⟨bytes, h1, h2⟩ := codec_roundtrip_loops_nobreak nS nM ts hl hn hm farg
   exact ⟨bytes, h1, fun base mj maxTicks fuel ln lr => (h2 base mj ln lr).safe maxTicks fuel⟩
 
 /-- the same for every bracket structure, loops WITH break included (restriction: leaves in the
 linear fragment, terminated by `FINISH`, stream shorter than 64 KiB; `Codec.encL` = the structured
 encoder of `C02_convert_structured_eq`) -/
 theorem C03_codec_never_reads_outside_loops_partial (nS nM : Nat) (ts : List Node) (hl : linL ts = true)
-    (farg : Nat) :
+    (hk : brkOkL false ts = true) (hnc : noCallL ts = true) (hm : mokL Mode.plain false ts = true) (farg : Nat) :
     ∃ e', encL nS nM ts {} = .ok e' ∧
       (e'.out.length + 1 < 65536 →
         convertTrack nS nM (flatL ts ++ [⟨mds_FINISH, farg⟩]) = .ok (e'.out ++ [mds_FINISH]) ∧
         ∀ (base mj maxTicks fuel : Nat) (ln lr : Option Nat),
           (run (e'.out ++ [mds_FINISH]) base mj maxTicks fuel { pc := 0, lastNote := ln, lastRest := lr }).2 ∈
             [Stop.finished, Stop.fuel, Stop.tooManyTicks]) := by
-  obtain ⟨e', h1, h2⟩ := codec_roundtrip_loops nS nM ts hl farg
+  obtain ⟨e', h1, h2⟩ := codec_roundtrip_loops nS nM ts hl hk hnc hm farg
   exact ⟨e', h1, fun hb => ⟨(h2 hb).1, fun base mj maxTicks fuel ln lr => ((h2 hb).2 base mj ln lr).safe maxTicks fuel⟩⟩
 
 /-- the same for a looping track `a ++ [SEGNO] ++ b ++ [JUMP]` (`a`, `b` linear, stream < 64 KiB),
 however often the jump is followed -/
 theorem C03_codec_never_reads_outside_segno_partial (nS nM : Nat) (a b : List MEv)
-    (ha : ∀ ev ∈ a, linEv ev = true) (hb : ∀ ev ∈ b, linEv ev = true) (jarg : Nat) :
+    (ha : ∀ ev ∈ a, linEv ev = true) (hb : ∀ ev ∈ b, linEv ev = true) (ma : ∀ ev ∈ a, Mode.plain.evOk ev = true)
+    (mb : ∀ ev ∈ b, Mode.plain.evOk ev = true) (jarg : Nat) :
     ∃ bytes, convertTrack nS nM (a ++ [⟨mds_SEGNO, 0⟩] ++ b ++ [⟨mds_JUMP, jarg⟩]) = .ok bytes ∧
       (bytes.length < 65536 → ∀ (base mj maxTicks fuel : Nat) (ln lr : Option Nat),
         (run bytes base mj maxTicks fuel { pc := 0, lastNote := ln, lastRest := lr }).2 ∈
           [Stop.finished, Stop.fuel, Stop.tooManyTicks]) := by
-  obtain ⟨bytes, h1, h2⟩ := codec_roundtrip_segno nS nM a b ha hb jarg
+  obtain ⟨bytes, h1, h2⟩ := codec_roundtrip_segno nS nM a b ha hb ma mb jarg
   exact ⟨bytes, h1, fun hlen base mj maxTicks fuel ln lr => (h2 hlen base mj ln lr).safe maxTicks fuel⟩
 
 /-- **The stream is terminated and well-formed: the walker accepts it** — linear tracks ending in
@@ -213,19 +215,23 @@ theorem C03_stream_terminated_segno_partial (nS nM : Nat) (a b : List MEv) (ha :
 /-- the same for counted loops with and without break, nested (leaves linear, `FINISH` last, stream
 < 64 KiB): loop starts and ends are balanced and every back-patched break offset lands on the
 instruction after its loop end (that is what the walker checks) -/
-theorem C03_stream_terminated_loops_partial (nS nM : Nat) (ts : List Node) (hl : linL ts = true) (farg : Nat) :
+theorem C03_stream_terminated_loops_partial (nS nM : Nat) (ts : List Node) (hl : linL ts = true)
+    (hk : brkOkL false ts = true) (farg : Nat) :
     ∃ e', encL nS nM ts {} = .ok e' ∧
       (e'.out.length + 1 < 65536 →
         convertTrack nS nM (flatL ts ++ [⟨mds_FINISH, farg⟩]) = .ok (e'.out ++ [mds_FINISH]) ∧
         ∀ fuel, fuel ≥ e'.out.length + 1 →
           SeqWf.walk (e'.out ++ [mds_FINISH]) 0 fuel { pc := 0 } = .ok (e'.out.length + 1)) :=
-  walk_accepts_loops nS nM ts hl farg
+  walk_accepts_loops nS nM ts hl hk farg
 
 /-- **The general single track** `ta, SEGNO, tb, JUMP` (bracket structures with nested counted loops
-with and without break over the linear fragment; loop point at depth 0; stream < 64 KiB): the
-walker accepts the stream and the interpreter never reads outside / meets an unknown opcode / a
-missing length / an empty loop stack, however often the jump is followed. -/
+with any number of breaks per loop over the linear fragment — further break markers `Node.xbrk` only
+behind a first break of their own loop, `brkOkL false`; no calls; loop point at depth 0; stream
+< 64 KiB): the walker accepts the stream and the interpreter never reads outside / meets an unknown
+opcode / a missing length / an empty loop stack, however often the jump is followed. -/
 theorem C03_track_wellformed_partial (nS nM : Nat) (ta tb : List Node) (ha : linL ta = true) (hb : linL tb = true)
+    (ka : brkOkL false ta = true) (kb : brkOkL false tb = true) (na : noCallL ta = true) (nb : noCallL tb = true)
+    (ma : mokL Mode.plain false ta = true) (mb : mokL Mode.plain false tb = true)
     (jarg : Nat) :
     ∃ eA eB, encL nS nM ta {} = .ok eA ∧ encL nS nM tb (afterSegno eA) = .ok eB ∧
       ((trackBytes eB).length < 65536 →
@@ -235,14 +241,159 @@ theorem C03_track_wellformed_partial (nS nM : Nat) (ta tb : List Node) (ha : lin
         ∀ (base mj maxTicks fuel : Nat) (ln lr : Option Nat),
           (run (trackBytes eB) base mj maxTicks fuel { pc := 0, lastNote := ln, lastRest := lr }).2 ∈
             [Stop.finished, Stop.fuel, Stop.tooManyTicks]) := by
-  obtain ⟨eA, eB, hA, hB, h⟩ := codec_roundtrip_track nS nM ta tb ha hb jarg
-  obtain ⟨eA', eB', hA', hB', h'⟩ := walk_accepts_track nS nM ta tb ha hb jarg
+  obtain ⟨eA, eB, hA, hB, h⟩ := codec_roundtrip_track nS nM ta tb ha hb ka kb na nb ma mb jarg
+  obtain ⟨eA', eB', hA', hB', h'⟩ := walk_accepts_track nS nM ta tb ha hb ka kb jarg
   rw [hA] at hA'; injection hA' with hA'; subst hA'
   rw [hB] at hB'; injection hB' with hB'; subst hB'
   exact ⟨eA, eB, hA, hB, fun hlen => ⟨(h hlen).1, (h' hlen).2,
     fun base mj maxTicks fuel ln lr => ((h hlen).2 base mj ln lr).safe maxTicks fuel⟩⟩
 
+/-- **Streams inside a chunk, subroutine calls included** (the three shapes of a channel track and
+the subroutine stream, at offset `pre.length` of `seq`, walked from their first byte as
+`SeqWf.checkAll` does): the walker accepts — every instruction is decoded inside the chunk, loop
+starts and ends are balanced, every break offset lands behind its loop end, the terminator is
+reached at loop depth 0, and (shape J, chunk up to the end of the stream < 64 KiB) the loop-back
+jump lands on an instruction boundary of this stream at loop depth 0.  The walker steps over a
+call instruction, so nothing is assumed about the pointer table. -/
+theorem C03_stream_at_offset_wellformed_partial (nS nM : Nat) (ta tb : List Node) (ha : linL ta = true)
+    (hb : linL tb = true) (eA eB : Enc) (hA : encL nS nM ta {} = .ok eA) (hB : encL nS nM tb (afterSegno eA) = .ok eB)
+    (pre seq : List Nat) :
+    (pre ++ trackBytes eB <+: seq → (pre ++ trackBytes eB).length < 65536 →
+      ∀ fuel, fuel ≥ (trackBytes eB).length →
+        SeqWf.walk seq pre.length fuel { pc := pre.length } = .ok (pre.length + (trackBytes eB).length)) ∧
+    (∀ start, pre ++ (eB.out ++ [mds_FINISH]) <+: seq → ∀ fuel, fuel ≥ eB.out.length + 1 →
+        SeqWf.walk seq start fuel { pc := pre.length } = .ok (pre.length + eB.out.length + 1)) ∧
+    (∀ start, pre ++ (eA.out ++ [mds_FINISH]) <+: seq → ∀ fuel, fuel ≥ eA.out.length + 1 →
+        SeqWf.walk seq start fuel { pc := pre.length } = .ok (pre.length + eA.out.length + 1)) :=
+  ⟨fun hp hlen => walk_j_at nS nM ta tb ha hb eA eB hA hB pre seq hp hlen,
+   fun start hp => walk_z_at nS nM ta tb ha hb eA eB hA hB pre seq start hp,
+   fun start hp => walk_f_at nS nM ta ha eA hA pre seq start hp⟩
+
 example : ∃ bytes, convertTrack 0 0 ([⟨0xa6, 24⟩] ++ [⟨mds_JUMP, 0⟩]) = .ok bytes := ⟨_, rfl⟩
+example : linL [.loopB [.ev ⟨0xa6, 2⟩] [.xbrk, .call 0 []] 2] = true ∧
+    brkOkL false [.loopB [.ev ⟨0xa6, 2⟩] [.xbrk, .call 0 []] 2] = true := by decide
 example : linL [.loop [.ev ⟨0xa6, 24⟩] 2] = true ∧ noBreakL [.loop [.ev ⟨0xa6, 24⟩] 2] = true := by decide
+
+/-! ## Whole songs of the fragment (third layer; the fragment and the extra hypotheses — drum mode included:
+`RoutinesOK`, `LoopDrumOK` — are those of `C02_song_roundtrip_partial`, Properties/C02.lean) -/
+
+theorem isCmd_mask (x : Tk) : SongTop.isCmd (Timeline.maskTk x) = SongTop.isCmd x := by
+  cases x with
+  | cmd op a =>
+    simp only [Timeline.maskTk]
+    split
+    · rfl
+    · split <;> rfl
+  | _ => rfl
+
+theorem mark_of_mk {l : List Tk} (h : Tk.loopMark ∈ l) : Tk.loopMark ∈ SongSem.mk l :=
+  List.mem_map.mpr ⟨Tk.loopMark, h, rfl⟩
+
+theorem noncmd_of_mk {l : List Tk} (h : ∃ tk ∈ SongSem.mk l, SongTop.isCmd tk = false) : ∃ tk ∈ l, SongTop.isCmd tk = false := by
+  obtain ⟨tk, hm, hc⟩ := h
+  obtain ⟨x, hx, rfl⟩ := List.mem_map.mp hm
+  exact ⟨x, hx, by rw [← isCmd_mask]; exact hc⟩
+
+theorem dropWhile_mark {a r : List Tk} (ha : Tk.loopMark ∉ a) :
+    (a ++ Tk.loopMark :: r).dropWhile (· != Tk.loopMark) = Tk.loopMark :: r := by
+  induction a with
+  | nil => simp [List.dropWhile]
+  | cons x a ih =>
+    have hx : x ≠ Tk.loopMark := fun h => ha (by simp [h])
+    have : (x != Tk.loopMark) = true := by simpa using hx
+    simp only [List.cons_append, List.dropWhile, this]
+    exact ih (fun h => ha (by simp [h]))
+
+theorem dropWhile_nomark {a : List Tk} (ha : Tk.loopMark ∉ a) : a.dropWhile (· != Tk.loopMark) = [] := by
+  induction a with
+  | nil => rfl
+  | cons x a ih =>
+    have hx : x ≠ Tk.loopMark := fun h => ha (by simp [h])
+    have : (x != Tk.loopMark) = true := by simpa using hx
+    simp only [List.dropWhile, this]
+    exact ih (fun h => ha (by simp [h]))
+
+theorem takeWhile_mark {a r : List Tk} (ha : Tk.loopMark ∉ a) :
+    (a ++ Tk.loopMark :: r).takeWhile (· != Tk.loopMark) = a := by
+  induction a with
+  | nil => simp [List.takeWhile]
+  | cons x a ih =>
+    have hx : x ≠ Tk.loopMark := fun h => ha (by simp [h])
+    have : (x != Tk.loopMark) = true := by simpa using hx
+    simp only [List.cons_append, List.takeWhile, this]
+    rw [ih (fun h => ha (by simp [h]))]
+
+/-- **C03 for whole songs of the fragment (drum mode included).**  For every channel track in `Timeline.inDomain`
+whose expected tick string is defined, with `start` = the position the track table lists:
+ * the instruction walker, started there as `SeqWf.checkAll` starts it, accepts the stream — every
+   instruction is decoded inside the chunk, loop starts and ends are balanced, every loop-break
+   offset lands on the instruction behind its loop end, the stream ends with a terminator at loop
+   depth 0, the loop-back jump lands on an instruction boundary of the stream at loop depth 0;
+ * however often the loop-back jump is followed, with whatever fuel and tick limit, the
+   interpreter stops only with `finished`, `fuel` or `tooManyTicks`: it never reads outside the
+   chunk, never meets an unknown opcode, a missing length or an empty loop stack — through all
+   calls, drum-routine calls and returns;
+ * with the jump followed twice, a run that finishes passes at least one tick of note or rest time
+   between the two loop marks: the loop-back jump spans time. -/
+theorem C03_song_wellformed_partial (song : Song) (d : DataInfo) (vol : Option String) (pf : Timeline.Platform)
+    (b : MdsFile.Built) (hpc : PlatformClean d) (hp : SongTop.PlainSong song)
+    (hb : MdsFile.construct song d vol = .ok b) (hlen : b.seq.length < 65536) (hR : SongTop.RoutinesOK song b)
+    (hpa : SongTop.PlatAgree d.platform pf) :
+    ∀ id root t, (id, root) ∈ song.tracks → id < 16 → Timeline.inDomain song root = true →
+      SongSplit.segCount root ≤ 1 → SongTop.LoopDrumOK root → Timeline.expected song pf root = .ok t →
+      ∃ base ts start, tracksOf b.seq = some (base, ts) ∧ ts.lookup id = some start ∧
+        (∃ len, start + len ≤ b.seq.length ∧
+          ∀ fuel, fuel ≥ len → SeqWf.walk b.seq start fuel { pc := start } = .ok (start + len)) ∧
+        (∀ mj maxTicks fuel, (run b.seq base mj maxTicks fuel { pc := start }).2 ∈
+          [Stop.finished, Stop.fuel, Stop.tooManyTicks]) ∧
+        (∀ maxTicks fuel, (run b.seq base 2 maxTicks fuel { pc := start }).2 = Stop.finished →
+          SeqWf.ticksBetweenLoops (run b.seq base 2 maxTicks fuel { pc := start }).1 ≠ some 0) := by
+  intro id root t hmem hid hdom hcnt hloop hexp
+  have hseg := SongTop.inDomain_segno hdom
+  obtain ⟨ts, stream, pre, htr, hlk, hpre, hres⟩ := SongTop.song_plays hpc hp hb hlen pf hmem hid (SongTop.platOK_of_agree hpa _ _) hR hseg hcnt hloop hexp 0
+  refine ⟨_, ts, pre.length, htr, hlk, ⟨stream.length, ?_, hres.walks⟩, ?_, ?_⟩
+  · have := hpre.length_le; simpa using this
+  · intro mj maxTicks fuel
+    obtain ⟨ts', stream', pre', htr', hlk', _, hres'⟩ := SongTop.song_plays hpc hp hb hlen pf hmem hid (SongTop.platOK_of_agree hpa _ _) hR hseg hcnt hloop hexp mj
+    rw [htr] at htr'; injection htr' with htr'; injection htr' with _ htr'; subst htr'
+    rw [hlk] at hlk'; injection hlk' with hlk'
+    obtain ⟨X, Y, TA, TB, loops, s', hreach, hfin, _⟩ := hres'.plays
+    rw [← hlk'] at hreach
+    rcases run_stop_of_reach (maxTicks := maxTicks) hreach hfin fuel with h | h | h <;> simp [h]
+  · intro maxTicks fuel hfinished
+    obtain ⟨ts', stream', pre', htr', hlk', _, hres'⟩ := SongTop.song_plays hpc hp hb hlen pf hmem hid (SongTop.platOK_of_agree hpa _ _) hR hseg hcnt hloop hexp 2
+    rw [htr] at htr'; injection htr' with htr'; injection htr' with _ htr'; subst htr'
+    rw [hlk] at hlk'; injection hlk' with hlk'
+    obtain ⟨X, Y, TA, TB, loops, s', hreach, hfin, hout, hX, hY, _, htime, hnX, hnY⟩ := hres'.plays
+    rw [← hlk'] at hreach
+    have ho := run_out_of_reach (maxTicks := maxTicks) hreach hfin (by decide) fuel hfinished
+    rw [ho, hout, List.reverse_reverse]
+    have hnA : Tk.loopMark ∉ TA := fun h => hnX (by rw [← hX]; exact mark_of_mk h)
+    have hnB : Tk.loopMark ∉ TB := fun h => hnY (by rw [← hY]; exact mark_of_mk h)
+    cases loops with
+    | false =>
+      simp only [Bool.false_eq_true, if_false]
+      unfold SeqWf.ticksBetweenLoops
+      rw [dropWhile_nomark (by
+        intro h; rcases List.mem_append.mp h with h | h
+        · exact hnA h
+        · exact hnB h)]
+      simp
+    | true =>
+      simp only [if_true]
+      obtain ⟨tk, htk, hck⟩ := noncmd_of_mk (by rw [hY]; exact htime rfl)
+      have e1 : TA ++ repeatL 2 (TB ++ [Tk.loopMark]) ++ TB = (TA ++ TB) ++ Tk.loopMark :: (TB ++ Tk.loopMark :: TB) := by
+        simp [repeatL, List.append_assoc]
+      have hnAB : Tk.loopMark ∉ TA ++ TB := by
+        intro h; rcases List.mem_append.mp h with h | h
+        · exact hnA h
+        · exact hnB h
+      unfold SeqWf.ticksBetweenLoops
+      rw [e1, dropWhile_mark hnAB]
+      simp only [takeWhile_mark hnB]
+      intro h0
+      simp only [Option.some.injEq, List.length_eq_zero_iff, List.filter_eq_nil_iff] at h0
+      have := h0 tk htk
+      cases tk <;> simp [SongTop.isCmd] at hck this
 
 end Ctrmml.C03
